@@ -112,6 +112,21 @@ def build_scenarios(prop, tier, rnd):
     for i, (a, b) in enumerate(pairs):
         for j, init in enumerate(INITS if not q else [INITS[(i + j0) % len(INITS)] for j0 in (0, 1)]):
             add(init, [[a], [b]], dfs, n=[10000, 1, 2][(i + j) % 3], kt=["string", "bytes", "u32"][i % 3])
+    # one operation against a thread of TWO operations on the same key (commit, then removal/overwrite, before the
+    # other commit is applied): all schedules with at most two pre-emptions
+    if prop in ("C04", "C15"):
+        k1 = lambda c: {"op": "put", "k": 1, "c": c}
+        seq2 = []
+        for c in ("A", "B"):
+            seq2 += [[k1(c), {"op": "del", "k": 1}], [k1(c), W[6]], [{"op": "del", "k": 1}, k1(c)]]
+            seq2 += [[k1(c), k1(c2)] for c2 in ("A", "B")]
+        ones = [k1("A"), k1("B"), {"op": "del", "k": 1}]
+        combos = [(o, t2) for o in ones for t2 in seq2]
+        if q:
+            rnd.shuffle(combos)
+            combos = combos[:14] + [(k1("A"), [k1("A"), {"op": "del", "k": 1}])]
+        for i, (o, t2) in enumerate(combos):
+            add(INITS[i % 2], [[o], t2], dict(dfs, runs=80 if q else 800))
     # two operations per thread, three threads: seeded random schedules
     rs = {"kind": "random", "runs": 25 if q else 300, "seed": seed()}
     menu = W + (R if prop in ("C05", "C15") else [])
@@ -126,6 +141,12 @@ def build_scenarios(prop, tier, rnd):
     # a caller that keeps an IndexReadGuard alive and READS again while another thread writes (finding F6);
     # the schedule is forced so that the writer really queues inside state.write()
     if prop == "C15":
+        # a reader sits at the blob open holding the index read guard, a writer is forced into state.write() (it really
+        # queues), then the reader goes on: with an intact blob and with a MISSING blob (error path of the read)
+        for rd in ("get", "range", "reader"):
+            for setup in ([], [{"kind": "delete", "c": "A"}]):
+                add([{"op": "put", "k": 1, "c": "A"}, {"op": "put", "k": 2, "c": "B"}], [[{"op": rd, "k": 1}], [{"op": "put", "k": 2, "c": "C"}]],
+                    {"kind": "forced", "schedules": [[1, 1] + [2] * 6 + [1] * 6]}, plant=setup)
         for w in ([{"op": "put", "k": 1, "c": "B"}], [{"op": "ckpt"}]):
             pre = 6 if w[0]["op"] == "put" else 2
             add([{"op": "put", "k": 1, "c": "A"}], [[{"op": "guard"}, {"op": "get", "k": 1}, {"op": "unguard"}], w],
@@ -211,7 +232,8 @@ def run_conc_check(prop, tier, replay=None, merge=False):
     nviol = 0
     for sid, (s, f, t, rs) in list(viol.items())[:5]:
         rp = dict(s)
-        rp["explore"] = {"kind": "guided", "schedules": [rs["schedule"]]}
+        # a forced schedule (threads really block in locks) must be replayed as forced
+        rp["explore"] = {"kind": "forced" if s["explore"].get("kind") == "forced" else "guided", "schedules": [rs["schedule"]]}
         path = save_replay(prop, rp)
         print(f"VIOLATION property={prop} replay={path}")
         log(f"[{prop}]   tag={t} program={json.dumps(s['threads'])} init={json.dumps(s['init'])} schedule={rs['schedule']}")
